@@ -1,6 +1,7 @@
 /- Ops/Base.lean — driver ops for the calendar base and the generated kernels. -/
 import DateutilVerif.Base.Wire
 import DateutilVerif.Base.Calendar
+import DateutilVerif.Base.Time
 import DateutilVerif.Generated.Easter
 import DateutilVerif.Generated.ParserKernels
 import DateutilVerif.Spec.Easter
@@ -18,6 +19,12 @@ def handle (op : String) (args : List String) : Option String :=
       some (if 1 ≤ n ∧ n ≤ Cal.maxOrdinal then "ok " ++ show3 (Cal.fromOrdinal n) else "err ValueError")
   | "base.weekday", some [y, m, d] => some s!"ok {Cal.weekday y m d}"
   | "base.isocal", some [y, m, d] => some ("ok " ++ show3 (Cal.isoCalendar y m d))
+  | "base.dtadd", some [y, m, d, hh, mm, ss, us, delta] =>
+      let t : DT := { y, m, d, hh, mm, ss, us }
+      some (if t.valid then Py.showR DT.wire (t.addMicros delta) else "err ValueError")
+  | "base.dtmicros", some [y, m, d, hh, mm, ss, us] =>
+      let t : DT := { y, m, d, hh, mm, ss, us }
+      some (if t.valid then s!"ok {t.toMicros}" else "err ValueError")
   | "base.isleap", some [y] => some ("ok " ++ showBool (Cal.isLeap y))
   | "base.dim", some [y, m] => some s!"ok {Cal.daysInMonth y m}"
   | "base.yday", some [y, m, d] => some s!"ok {Cal.yday y m d}"
